@@ -72,6 +72,25 @@ def gen(tier, rng, scale):
                 items.append(["r"])
         items.append(["e"])
         cases.append({"items": items})
+    # many small files, and one pass that has to remove most of them (several hundred in one go): by size, by age, or both
+    mrng = rng.fork("many")
+    for ci in range((3 if quick else 30) * scale):
+        nfiles = mrng.choice([520, 600, 700, 1100])
+        items = []
+        for k in range(nfiles):
+            items.append(["c", 12 + k, mrng.choice([1, 1, 1, 2, 3]), mrng.choice([0, 1, 2, 3, 5, 8, 13, 30]) if mrng.chance(1, 2) else (30 if k % 7 else 0)])
+        if mrng.chance(1, 3):
+            items.append(["e"])
+        kind = mrng.below(3)
+        if kind != 1:
+            items.append(["s", mrng.choice([0, 5, 100, nfiles // 10])])
+        if kind != 0:
+            items.append(["g", mrng.choice([1, 3, 11])])
+        items.append(["e"])
+        if mrng.chance(1, 2):
+            items.append(["a", 12 + mrng.below(nfiles), 0, ""])
+        items.append(["e"])
+        cases.append({"items": items})
     # the clock alone: histories on a fast clock (a time unit of FAST_UNIT seconds instead of an hour) in which REAL time passes between passes - with nothing
     # at all happening in between, or with some activity / a settings change / a restart before or after the wait
     for ci in range((10 if quick else 48) * scale):
